@@ -256,6 +256,22 @@ Qed.
 
 End Ctx.
 
+(* ---- the wrapping pack (fixes/C28-pack-integer-conversion.diff): total, no cast needed ---- *)
+Lemma pack_w_ok c (Hwf : wf_ctx c) t v : llong_size c = 8 ->
+  pack_w c t v = Ok (bytes_of (little_endian c) (sizeof c t) (convert (dm_of c) t v)).
+Proof.
+  intros H8. unfold pack_w. rewrite (convert_m_ok c Hwf). cbn [bind].
+  exact (pack_in_range c t _ H8 (convert_in_range c Hwf t v)).
+Qed.
+
+Lemma init_wrap_good c (Hwf : wf_ctx c) t e : llong_size c = 8 -> ops_known e = true ->
+  good (global_init_w c t e).
+Proof.
+  intros H8 K. unfold global_init_w.
+  apply good_bind; [now apply eval_fixed_good|]. intros v _.
+  rewrite (pack_w_ok c Hwf t v H8). exact I.
+Qed.
+
 (* ---- refutations on the code as found (fixed = false) ---- *)
 Definition e_div0 := BinOp (NumLit 1 TInt) "/" (NumLit 0 TInt) TInt.
 Definition e_mod0 := BinOp (NumLit 1 TInt) "%" (NumLit 0 TInt) TInt.
